@@ -43,16 +43,23 @@ class ProviderBoom(Exception):
 
 
 class RunCtx:
-    def __init__(self, faults):
+    def __init__(self, faults, sched=None, me=None):
         self.faults = faults or {}
         self.log = []
         self.stmt_idx = 0
         self.n_base = 0
         self.lookup_fails = set(self.faults.get("lookupFails") or [])
+        self.sched, self.me = sched, me
 
 
 def _ctx():
     return getattr(CUR, "run", None)
+
+
+def _park(c):
+    """tap point reached: under an access scheduler the thread waits here, BEFORE the access, for its turn"""
+    if c is not None and c.sched is not None:
+        c.sched.park(c.me)
 
 
 def _raise_err(e):
@@ -96,18 +103,21 @@ def impl():
 
         def register_session_metadata(self, table, columns):
             c = _ctx()
+            _park(c)
             if c is not None:
                 c.log.append(["register", str(table), [x.raw_name for x in columns]])
             return super().register_session_metadata(table, columns)
 
         def deregister_session_metadata(self):
             c = _ctx()
+            _park(c)
             if c is not None:
                 c.log.append(["deregister"])
             return super().deregister_session_metadata()
 
         def get_table_columns(self, table, **kwargs):
             c = _ctx()
+            _park(c)
             hit = c is not None and str(table) in self._session_metadata
             ans = super().get_table_columns(table, **kwargs)
             if hit:
@@ -154,6 +164,7 @@ def impl():
             c = _ctx()
             if c is None:
                 return orig(self, sql, metadata_provider)
+            _park(c)
             i = c.stmt_idx
             c.stmt_idx += 1
             c.log.append(["analyze", i])
@@ -244,10 +255,12 @@ def spec_sql(spec):
     return ";\n".join(spec["stmts"])
 
 
-def do_run(spec, provider):
+def do_run(spec, provider, sched=None, me=None):
     """one complete `LineageRunner` evaluation under the taps.  Returns {"result": ["ok", {...}] | ["error", cls], "events"}"""
     I = impl()
-    ctx = RunCtx(spec.get("faults"))
+    ctx = RunCtx(spec.get("faults"), sched, me)
+    if sched is not None:
+        sched.ctxs[me] = ctx
     kwargs = {"dialect": spec.get("dialect", "ansi"), "silent_mode": bool(spec.get("silent"))}
     if provider is not None:
         kwargs["metadata_provider"] = provider
@@ -620,6 +633,213 @@ def part_ab(chk, drv):
     return n_runs
 
 
+# ----------------------------------------------------------------------------------------- access scheduler
+class AccessScheduler:
+    """Real threads in lock-step at the granularity of provider accesses: every tap point (statement tap, register,
+    deregister, lookup) is a place where the running thread stops BEFORE the access; the controller then decides who
+    performs its pending access next.  One grant = perform the pending access and run on to the next tap point."""
+
+    def __init__(self, n):
+        self.n = n
+        self.go = [threading.Event() for _ in range(n)]
+        self.parked = [threading.Event() for _ in range(n)]
+        self.done = [False] * n
+        self.ctxs = [None] * n
+        self.errors = []
+
+    def park(self, me):
+        self.parked[me].set()
+        if not self.go[me].wait(180):
+            raise RuntimeError("access scheduler: no turn within 180 s")
+        self.go[me].clear()
+
+    def finish(self, me):
+        self.done[me] = True
+        self.parked[me].set()
+
+    def grant(self, i):
+        self.parked[i].clear()
+        self.go[i].set()
+        if not self.parked[i].wait(180):
+            raise Infra("access scheduler: a thread did not reach its next provider access within 180 s")
+
+
+def run_scheduled(cfgs, threads, sched):
+    """cfgs: provider configurations (one provider OBJECT each); threads: [{"pid": index into cfgs, "spec": run spec}];
+    sched: thread indices, one per provider access.  Returns the steps actually performed
+    [tid, event|None, sessions of all providers after it] (the schedule is completed round-robin), per-thread
+    observations, final sessions."""
+    provs = [new_provider(c) for c in cfgs]
+    n = len(threads)
+    S = AccessScheduler(n)
+    obs = [None] * n
+
+    def work(i):
+        try:
+            S.park(i)
+            obs[i] = do_run(threads[i]["spec"], provs[threads[i]["pid"]], S, i)
+        except BaseException as e:     # noqa
+            S.errors.append(repr(e))
+        finally:
+            S.finish(i)
+    ths = [threading.Thread(target=work, args=(i,), daemon=True) for i in range(n)]
+    for t in ths:
+        t.start()
+    for i in range(n):
+        if not S.parked[i].wait(60):
+            raise Infra("access scheduler: thread did not start")
+    for i in range(n):
+        S.grant(i)          # start-up: run to the first provider access (split, parsing: nothing shared)
+    steps = []
+
+    def one(i):
+        if S.done[i]:
+            steps.append([i, None, [session_of(p) for p in provs]])
+            return
+        before = len(S.ctxs[i].log) if S.ctxs[i] is not None else 0
+        S.grant(i)
+        new = S.ctxs[i].log[before:] if S.ctxs[i] is not None else []
+        steps.append([i, new[0] if len(new) == 1 else (None if not new else ["several"] + new),
+                      [session_of(p) for p in provs]])
+    for i in sched:
+        one(i)
+    for i in range(n):
+        while not S.done[i]:
+            one(i)
+    for t in ths:
+        t.join(60)
+    if S.errors:
+        raise Infra("scheduled worker failed: " + S.errors[0])
+    return steps, obs, [session_of(p) for p in provs]
+
+
+def sched_failures(cfgs, threads, steps, obs, final, shared_ok):
+    """the property on the implementation alone: every thread whose provider object is its own (or falsy, like the
+    shared default) behaves exactly as when it runs alone on a new provider; nothing is left behind"""
+    fails = []
+    users = {}
+    for t in threads:
+        users[t["pid"]] = users.get(t["pid"], 0) + 1
+    for i, t in enumerate(threads):
+        cfg = cfgs[t["pid"]]
+        falsy = cfg["kind"] == "dict" and not cfg["base"]
+        if users[t["pid"]] > 1 and not (falsy and shared_ok):
+            continue
+        alone = do_run(t["spec"], new_provider(cfg))
+        if alone["result"] != obs[i]["result"]:
+            fails.append(f"thread {i} ({short(t['spec'])}): result under the interleaving differs from its result alone")
+        elif alone["events"] != obs[i]["events"]:
+            fails.append(f"thread {i} ({short(t['spec'])}): provider accesses under the interleaving differ from those "
+                         f"alone ({first_diff(obs[i]['events'], alone['events'])})")
+    for k, sess in enumerate(final):
+        if sess:
+            fails.append(f"provider {k} still holds {sess} after all runs ended")
+    return fails
+
+
+def gen_sched_cases(chk):
+    rng = chk.rng
+    thorough = chk.tier == "thorough"
+    cases = []
+    truthy = [PROVIDERS[1], PROVIDERS[2], PROVIDERS[3], PROVIDERS[4]]
+    falsy = PROVIDERS[0]
+    chain_w = [6, 7, 5, 0, 3, 0, 0, 1]
+
+    def thread_spec(maybe_fault=True):
+        spec = gen_script(rng, n=rng.randint(2, 4), weights=chain_w if rng.random() < 0.8 else None)
+        if maybe_fault and rng.random() < 0.3:
+            spec["faults"] = random_fault(rng, spec)
+        return spec
+    plan = [("own", 260 if thorough else 34), ("shared-falsy", 160 if thorough else 20), ("shared-truthy", 100 if thorough else 12)]
+    for mode, count in plan:
+        for _ in range(count):
+            n = rng.randint(2, 3)
+            if mode == "own":
+                c = rng.choice(truthy)
+                cfgs = [c if rng.random() < 0.7 else rng.choice(truthy) for _ in range(n)]
+                threads = [{"pid": i, "spec": thread_spec()} for i in range(n)]
+            elif mode == "shared-falsy":
+                cfgs = [falsy]
+                threads = [{"pid": 0, "spec": thread_spec()} for _ in range(n)]
+            else:
+                cfgs = [rng.choice(truthy)]
+                threads = [{"pid": 0, "spec": thread_spec(False)} for _ in range(n)]
+            style = rng.random()
+            if style < 0.3:
+                sched = [i % n for i in range(60)]                       # switch after every access
+            elif style < 0.5:
+                a = rng.randint(1, 6)
+                sched = [0] * a + [1] * 40 + [0] * 40                    # one thread runs to its end inside another's run
+            else:
+                sched = [rng.randrange(n) for _ in range(60)]
+            cases.append({"mode": mode, "cfgs": cfgs, "threads": threads, "sched": sched})
+    return cases
+
+
+def exec_sched_case(case):
+    steps, obs, final = run_scheduled(case["cfgs"], case["threads"], case["sched"])
+    fails = sched_failures(case["cfgs"], case["threads"], steps, obs, final, shared_ok=True)
+    return {"steps": steps, "obs": obs, "final": final, "fails": fails}
+
+
+def sched_model_request(case, steps):
+    return {"cmd": "provsched",
+            "providers": [{"kind": c["kind"], "base": [[k, v] for k, v in c["base"].items()]} for c in case["cfgs"]],
+            "threads": [{"pid": t["pid"], "script": t["spec"]["desc"], "faults": t["spec"].get("faults") or {}}
+                        for t in case["threads"]],
+            "sched": [st[0] for st in steps]}
+
+
+def strip_case(case):
+    return {"kind": "sched", "mode": case["mode"], "cfgs": case["cfgs"], "sched": case["sched"],
+            "threads": [{"pid": t["pid"], "spec": strip_spec(t["spec"])} for t in case["threads"]]}
+
+
+def part_sched(chk, drv):
+    import multiprocessing as mp
+    cases = gen_sched_cases(chk)
+    impl()
+    nproc = max(2, min(10, (os.cpu_count() or 4) - 2))
+    t0 = time.time()
+    with mp.get_context("fork").Pool(nproc) as pool:
+        results = pool.map(exec_sched_case, cases, chunksize=2)
+    answers = drv.ask([sched_model_request(c, r["steps"]) for c, r in zip(cases, results)]) if drv is not None else [None] * len(cases)
+    n_steps = n_mism = 0
+    modes = {}
+    for case, res, ans in zip(cases, results, answers):
+        modes[case["mode"]] = modes.get(case["mode"], 0) + 1
+        n_steps += sum(1 for st in res["steps"] if st[1] is not None)
+        interleaved = len({st[0] for st in res["steps"][:10]}) > 1
+        chk.count("sched:" + canon_json(strip_case(case)), interleaved)
+        if res["fails"]:
+            chk.violation("real threads interleaved at provider accesses: " + res["fails"][0],
+                          {**strip_case(case), "failures": res["fails"][:5], "steps": res["steps"]})
+            return len(cases)
+        if ans is None:
+            continue
+        if "error" in ans:
+            raise Infra("model driver error: " + ans["error"])
+        same = ans["steps"] == res["steps"] and ans["sessions"] == res["final"]
+        for t, o in zip(ans["threads"], res["obs"]):
+            same = same and t.get("finished") and t["result"][0] == o["result"][0] and \
+                (o["result"][0] == "ok" or t["result"][1] == o["result"][1])
+        if not same:
+            n_mism += 1
+            if len(chk.stale) < 20:
+                chk.stale.append({**strip_case(case), "descs": [t["spec"]["desc"] for t in case["threads"]],
+                                  "impl_steps": res["steps"], "model_steps": ans["steps"],
+                                  "first_difference": first_diff(res["steps"], ans["steps"])})
+    if cases and len(chk.samples) < 4:
+        c, r = cases[0], results[0]
+        chk.sample({"interleaving": c["mode"], "threads": [short(t["spec"]) for t in c["threads"]],
+                    "steps": [[st[0], st[1]] for st in r["steps"]]})
+    log(f"[c12] sched: {len(cases)} interleavings, {n_steps} scheduled provider accesses in {time.time() - t0:.1f}s")
+    chk.coverage["sched_interleavings"] = modes
+    chk.coverage["sched_provider_access_steps"] = n_steps
+    chk.coverage["sched_model_mismatches"] = n_mism
+    return len(cases)
+
+
 # ----------------------------------------------------------------------------------------- corpus
 def harvest(repo):
     """SQL handed to `LineageRunner` / `assert_*_lineage_equal` by the repository's own tests (read with `ast`)"""
@@ -676,6 +896,17 @@ TSQL_SCRIPTS = [
     "insert into u select * from t",
     "insert into t select * from a",
     "select * from a\nselect from from",
+]
+
+
+# (script without semicolons, its statements as tsql splits them) — statements that tsql parses and ansi does not, so
+# that a segment cached by a tsql run would be visible if a later run of another dialect picked it up
+TSQL_CACHE_HISTORIES = [
+    ("select a from [t1]\nselect b from [t2]", ["select a from [t1]", "select b from [t2]"]),
+    ("insert into [u] select * from [t]\ninsert into [v] select * from [u]",
+     ["insert into [u] select * from [t]", "insert into [v] select * from [u]"]),
+    ("select top 3 a from t1 with (nolock)\nselect b from t2", ["select top 3 a from t1 with (nolock)", "select b from t2"]),
+    ("insert into t select * from a\ninsert into u select * from t", ["insert into t select * from a", "insert into u select * from t"]),
 ]
 
 
@@ -769,7 +1000,7 @@ def process_history_failures(cfg, runs, obs, alone):
 def part_b_processes(chk, corpus):
     rng = chk.rng
     thorough = chk.tier == "thorough"
-    n_hist = 220 if thorough else 28
+    n_hist = 220 if thorough else 21
     by_cfg = {}
     for c in corpus:
         by_cfg.setdefault(canon_json(c["cfg"]), []).append(c)
@@ -782,7 +1013,7 @@ def part_b_processes(chk, corpus):
         pool = by_cfg[key]
         cfg = pool[0]["cfg"]
         runs = []
-        for _ in range(rng.randint(4, 9)):
+        for _ in range(rng.randint(4, 9) if thorough else rng.randint(4, 7)):
             spec = dict(rng.choice(pool)["spec"])
             r = rng.random()
             if r < 0.3 and cfg is not None:
@@ -791,6 +1022,18 @@ def part_b_processes(chk, corpus):
                 spec["faults"] = rng.choice([{"analyzeAt": [rng.randrange(3), rng.choice(ERRS)]}, {"assemble": ["other", "asm"]}])
             runs.append(spec)
         hists.append({"cfg": cfg, "runs": runs})
+    # tsql split cache (analyzer.py:34-45): the script split without semicolons, then its statements one by one under
+    # other settings, then again — all in ONE process
+    tsql = list(TSQL_CACHE_HISTORIES)
+    rng.shuffle(tsql)
+    for script, stmts in tsql[: (len(tsql) if thorough else 3)]:
+        runs = [{"stmts": [script], "dialect": "tsql", "tsql_ns": True}]
+        for st in stmts:
+            runs.append({"stmts": [st], "dialect": "ansi"})
+            runs.append({"stmts": [st], "dialect": "tsql"})
+        runs.append({"stmts": [script], "dialect": "tsql"})
+        runs.append({"stmts": [script], "dialect": "tsql", "tsql_ns": True})
+        hists.append({"cfg": None, "runs": runs})
     probe = sorted({t for c in corpus if c["cfg"] for t in c["cfg"]["base"]} | set(PROBE))
     distinct = {}
     for hst in hists:
@@ -864,7 +1107,7 @@ def part_c_threads(chk, corpus):
     rng = chk.rng
     thorough = chk.tier == "thorough"
     n_seeds = 10 if thorough else 3
-    n_tasks = 400 if thorough else 110
+    n_tasks = 400 if thorough else 64
     pool = [c for c in corpus if c["src"] != "tests-metadata"]
     total = 0
     seq_cache = {}
@@ -989,6 +1232,38 @@ def replay(chk, obj):
                 return 1
         print("no failure in 5 attempts")
         return 0
+    if kind == "sched":
+        case = {"mode": r["mode"], "cfgs": r["cfgs"], "threads": r["threads"], "sched": r["sched"]}
+        res = exec_sched_case(case)
+        print(json.dumps({"steps": [[st[0], st[1]] for st in res["steps"]], "failures": res["fails"]}, indent=1))
+        return 1 if res["fails"] else 0
+    if "correspondence" in r:
+        # no input on which the property fails was found; what is replayed is the model/implementation comparison
+        drv = Driver()
+        differ = 0
+        for c in r["correspondence"]:
+            if c.get("kind") == "history":
+                runs = [{**x, "desc": d} for x, d in zip(c["runs"], c["descs"])]
+                obs = run_history(c["provider"], runs, PROBE)
+                ans = drv.ask1(model_request(c["provider"], runs))
+                for o, m in zip(obs, ans["runs"]):
+                    if m["events"] != o["events"] or m["session"] != o["session"] or m["probe"] != o["probe"]:
+                        differ += 1
+                        print(json.dumps({"history": [short(x) for x in runs], "impl_events": o["events"],
+                                          "model_events": m["events"]}))
+                        break
+            elif c.get("kind") == "sched":
+                case = {"mode": c["mode"], "cfgs": c["cfgs"], "sched": c["sched"],
+                        "threads": [{"pid": t["pid"], "spec": {**t["spec"], "desc": d}} for t, d in zip(c["threads"], c["descs"])]}
+                res = exec_sched_case(case)
+                ans = drv.ask1(sched_model_request(case, res["steps"]))
+                if ans.get("steps") != res["steps"]:
+                    differ += 1
+                    print(json.dumps({"interleaving": [short(t["spec"]) for t in case["threads"]],
+                                      "first_difference": first_diff(res["steps"], ans.get("steps") or [])}))
+        print(f"{differ} of {len(r['correspondence'])} recorded cases still differ between model and implementation "
+              f"(no input on which the property itself fails is known)")
+        return 1 if differ else 0
     print("replay file names no concrete input:", json.dumps(r)[:800])
     return 1
 
@@ -1008,11 +1283,12 @@ def run(chk):
         times[name] = round(time.time() - t, 1)
         return r
     n_ab = timed("A/B", part_ab, chk, drv)
+    n_s = timed("sched", part_sched, chk, drv)
     corpus = build_corpus(chk) if not chk.violations else []
     n_b = timed("processes", part_b_processes, chk, corpus)
     n_d = timed("default", part_default, chk, corpus)
     n_c = timed("threads", part_c_threads, chk, corpus)
-    log(f"[c12] parts done in {time.time() - t0:.1f}s {times}: A/B {n_ab} runs, processes {n_b}, default {n_d}, threads {n_c}")
+    log(f"[c12] parts done in {time.time() - t0:.1f}s {times}: A/B {n_ab} runs, sched {n_s}, processes {n_b}, default {n_d}, threads {n_c}")
     chk.coverage["part_seconds"] = times
     src = {}
     for c in corpus:
